@@ -56,6 +56,7 @@ void k_schedule(fiber_scheduler_t* sched, fiber_t* f) {
   (void)sched;
   for (int t = 1; t <= NF; t++) {
     if (k_fiber[t] == f) {
+#ifdef K_CHECK_EARLY_WAKE   /* costs three more shared reads per wake-up site: enabled by the scenarios whose subject is the wake-up hand-shake itself */
       vm_assert(!k_done[t], "contract (C01): a finished fiber was scheduled");
       {
         /* read the state FIRST: SAVING -> ok; anything else means the deferred actions have run, i.e. the suspension began earlier */
@@ -64,6 +65,7 @@ void k_schedule(fiber_scheduler_t* sched, fiber_t* f) {
         vm_assert(st_now == FIBER_STATE_SAVING_STATE_TO_WAIT || susp,
                   "contract (C01): a fiber was made runnable before its suspension had begun and outside the SAVING protocol (it would be resumed while still running)");
       }
+#endif
       uint64_t old = __atomic_exchange_n(&k_runnable[t], 1, __ATOMIC_SEQ_CST);
       vm_assert(old == 0, "contract (C02): a fiber was scheduled twice for one wake-up");
       return;
